@@ -58,12 +58,18 @@ def private_engine(ck):
     ck.coqdir = dst
 
 
-def sample_cases(lines, cap):
-    """Quick tier: at most `cap` cases go through Coq (every k-th, first cases of each design kept)."""
+def sample_cases(lines, cap, cases=None):
+    """Quick tier: at most about `cap` cases go through Coq: every case of the witness and
+    sole-validation designs, every k-th of the others."""
     if len(lines) <= cap:
         return lines
-    k = (len(lines) + cap - 1) // cap
-    return lines[::k]
+    keep, rest = [], []
+    for i, l in enumerate(lines):
+        name = cases[i].get("design", "") if cases and i < len(cases) and isinstance(cases[i], dict) else ""
+        (keep if ("sole" in name or name.startswith("wit")) else rest).append(l)
+    room = max(cap - len(keep), 200)
+    k = (len(rest) + room - 1) // room
+    return keep + rest[::max(k, 1)]
 
 
 def run_prop(pid, tier, replay=None):
@@ -96,7 +102,7 @@ def run_prop(pid, tier, replay=None):
         lines = [l for l in open(os.path.join(ck.work, fname)).read().splitlines() if l.strip()]
         total = len(lines)
         if tier == "quick":
-            lines = sample_cases(lines, 1000)
+            lines = sample_cases(lines, 2500, res.get("cases"))
         evaluated = len(lines)
         mism = ck.coq_eval_cases(lines, hdr, typ, fn, tag=pid.lower())
     if not ck.coq_ok:
